@@ -109,3 +109,153 @@ class EstimateAlphaBeta(Contract):
             sol = np.linalg.lstsq(A, xs * np.sqrt(w), rcond=None)[0]
             worst = max(worst, abs(np.log10(al) - sol[0]), abs(1 / be - sol[1]))
         return {"confirmed": bool(worst > 1e-8), "detail": f"max deviation of (log10 alpha, 1/beta) from the weighted least-squares solution over weight scalings 1, 3, 1/n: {worst:.3e}"}
+
+
+from vf.engine.values import Builtin, BoundMethod, FuncVal  # noqa: E402
+
+LSQ_CASES = [dict(weights=w, fixed=f) for w in ("none", "linear", "quadratic", "cubic", "Linear", "array") for f in ("none", "delta")] + \
+            [dict(weights="bogus", fixed="none"), dict(weights="scalar", fixed="none"),
+             dict(weights="none", fixed="alpha"), dict(weights="quadratic", fixed="beta"), dict(weights="none", fixed="delta+beta"), dict(weights="none", fixed="alpha+beta+delta")]
+
+
+@contract(EW + "._fit_lsq", ["C13", "C11", "C18"], LSQ_CASES, name="ew.fit_lsq")
+class FitLsq(Contract):
+    """least squares: data sorted, plotting positions (i-0.5)/n on the sorted data, weights as specified and aligned
+    with the sorted data, fixed delta kept (alpha, beta estimated for it), free delta = fmin of the x-space
+    weighted error started at the current delta; unsupported fixed subsets and unknown weight keywords raise"""
+
+    def case_label(self, case):
+        return f"weights={case['weights']},fixed={case['fixed']}"
+
+    def setup(self, itp, case):
+        me = self
+        me.est_calls = []
+        me.fmin_calls = []
+
+        def est(itp_, args, kwargs):
+            me.est_calls.append(list(args))
+            o = len(me.est_calls)
+            return (Sym(itp_.cx.sym(f"alpha_hat{o}", "real")), Sym(itp_.cx.sym(f"beta_hat{o}", "real")))
+        itp.summaries[EW + "._estimate_alpha_beta"] = est
+
+        def fmin(itp_, a, k):
+            me.fmin_calls.append((list(a), dict(k)))
+            d = Sym(itp_.cx.sym("delta_opt", "real"))
+            itp_.cx.trusted.add("scipy.optimize.fmin returns an array whose first entry is a local minimiser of the function it was given")
+            return [d]
+        itp.lib.table["scipy.optimize.fmin"] = Builtin("scipy.optimize.fmin", fmin)
+
+    def inputs(self, itp, case):
+        cx = itp.cx
+        cx.assumed_safety.append((r"_fit_lsq::safe\.div#\d+", "positive data: sum(x^k) is non-zero for the keyword weights"))
+        from .distributions import make_self
+        self.obj, self.before = make_self(cx, "ExponentiatedWeibullDistribution")
+        for p in case["fixed"].split("+"):
+            if p != "none":
+                f = real(cx, f"self.f_{p}")
+                self.obj.fields["f_" + p] = f
+        self.n = cx.sym("n", "int")
+        cx.assume(T.ge(self.n, 2))
+        self.data = sym_array(cx, "data", (self.n,))
+        w = case["weights"]
+        if w == "none":
+            self.weights = None
+        elif w == "array":
+            self.weights = sym_array(cx, "weights", (self.n,))
+        elif w == "scalar":
+            self.weights = Fraction(3)
+        else:
+            self.weights = w
+        return [self.obj, self.data, self.weights], {}
+
+    def post(self, itp, case, inp, out):
+        cx = itp.cx
+        w, fixed = case["weights"], case["fixed"]
+        if w in ("bogus", "scalar"):
+            cx.oblige("raises.ValueError.weights", out.outcome == "raise" and out.exc == "ValueError", "raises", "unknown weight keyword / non-iterable weights rejected")
+            return
+        if fixed not in ("none", "delta"):
+            cx.oblige("raises.NotImplementedError.fixed_subset", out.outcome == "raise" and out.exc == "NotImplementedError", "raises", "unsupported fixed subsets raise instead of silently ignoring the fixed value")
+            return
+        if out.outcome != "return":
+            cx.oblige("post.returns", False, "post", f"raised {out.exc}: {out.msg}")
+            return
+        cx.oblige("post.one_estimate", len(self.est_calls) == 1, "post")
+        if len(self.est_calls) != 1:
+            return
+        d_arg, x_arg, p_arg, w_arg = self.est_calls[0][:4]
+        info = getattr(x_arg, "sort_info", None) if isinstance(x_arg, SArr) else None
+        if info is None and itp.scratch.get("argsort_info") is not None and itp.scratch.get("argsort_of") is not None:
+            src = itp.scratch["argsort_of"]
+            (kk,) = fresh_index(cx, (self.n,))
+            cx.oblige("post.sorted_data.source", T.land(T.eq(src.shape[0], self.n), T.eq(src.get((kk,)), self.data.get((kk,)))), "post", "the permutation is the stable argsort of the data")
+            info = tuple(itp.scratch["argsort_info"]) + (src,)
+        cx.oblige("post.sorted_data", info is not None and isinstance(x_arg, SArr) and x_arg.ndim == 1, "post", "the observations handed to the estimator are the sorted data")
+        if info is None or not isinstance(x_arg, SArr):
+            return
+        perm, inv, src = info
+        cx.oblige("post.sorted_data.length", T.eq(x_arg.shape[0], self.n), "post")
+        (k,) = fresh_index(cx, (self.n,))
+        cx.oblige("post.sorted_data.values", T.eq(x_arg.get((k,)), self.data.get((perm(k),))), "post", "x[k] is the k-th order statistic of the data")
+        cx.oblige("post.positions", T.land(T.eq(p_arg.shape[0], self.n), T.eq(p_arg.get((k,)), T.div(T.sub(T.add(k, 1), Fraction(1, 2)), self.n))) if isinstance(p_arg, SArr) and p_arg.ndim == 1 else False,
+                  "post", "plotting positions p_i = (i - 0.5)/n, i = 1..n, on the sorted data")
+        xs = lambda j: self.data.get((perm(T.zi(j)),))
+        if isinstance(w_arg, SArr) and w_arg.ndim == 1:
+            if w == "none":
+                want = Fraction(1)
+                cx.oblige("post.weights", T.eq(w_arg.get((k,)), want), "post", "no weights = plain least squares (equal weights)")
+            elif w == "array":
+                cx.oblige("post.weights", T.eq(w_arg.get((k,)), self.weights.get((perm(k),))), "post",
+                          "weight k belongs to observation k: weights are re-ordered together with the data (result independent of the data order)")
+            else:
+                e = {"linear": 1, "quadratic": 2, "cubic": 3}[w.lower()]
+                from vf.lib.np_models import canon_sum_term
+
+                def pw(t):
+                    out = t
+                    for _ in range(e - 1):
+                        out = T.mul(out, t)
+                    return out
+                tot = canon_sum_term(cx, "sum", self.n, lambda i: pw(xs(i[0])))
+                cx.oblige("post.weights", T.eq(w_arg.get((k,)), T.div(pw(xs(k)), tot)), "post", f"'{w}' weights = x^{e} / sum x^{e} on the sorted data")
+        else:
+            cx.oblige("post.weights", False, "post", "weights handed to the estimator are not a vector")
+        after = {p: term_of(itp.get_attr(self.obj, p)) for p in ("alpha", "beta", "delta")}
+        a_hat, b_hat = cx.sym("alpha_hat1", "real"), cx.sym("beta_hat1", "real")
+        cx.oblige("post.alpha_beta_from_estimator", T.land(T.eq(after["alpha"], a_hat), T.eq(after["beta"], b_hat)), "post")
+        if fixed == "delta":
+            fd = term_of(self.obj.fields["f_delta"])
+            cx.oblige("post.delta_fixed", T.land(T.eq(after["delta"], fd), T.eq(term_of(d_arg), fd)), "post", "fixed delta kept and used for the regression")
+            cx.oblige("post.no_delta_search", not self.fmin_calls, "post")
+        else:
+            ok = len(self.fmin_calls) == 1
+            cx.oblige("post.delta_free.one_search", ok, "post")
+            if ok:
+                fa, fk = self.fmin_calls[0]
+                func = fa[0]
+                is_err = (isinstance(func, BoundMethod) and func.func.qualname.endswith("._wlsq_error")) or (isinstance(func, FuncVal) and func.qualname.endswith("._wlsq_error"))
+                cx.oblige("post.delta_free.objective", is_err, "post", "delta minimises the x-space weighted quantile error _wlsq_error")
+                cx.oblige("post.delta_free.start", T.eq(term_of(fa[1]), self.before["delta"]), "post", "search starts at the current delta")
+                args = fk.get("args")
+                cx.oblige("post.delta_free.args", isinstance(args, tuple) and len(args) == 3 and args[0] is x_arg and args[1] is p_arg and args[2] is w_arg, "post",
+                          "the error is evaluated on the same (x, p, w) the regression uses")
+                cx.oblige("post.delta_free.result", T.land(T.eq(after["delta"], cx.sym("delta_opt", "real")), T.eq(term_of(d_arg), cx.sym("delta_opt", "real"))), "post",
+                          "delta = the minimiser; alpha and beta are then estimated for that delta")
+        cx.oblige("frame.data", self.data.buf.writes == 0 and (not isinstance(self.weights, SArr) or self.weights.buf.writes == 0), "frame", "the caller's data and weights are not written")
+
+    def replay(self, case, ob):
+        import numpy as np
+        from virocon.distributions import ExponentiatedWeibullDistribution as E
+        rng = np.random.default_rng(8)
+        x = E(1.5, 1.2, 2.0).draw_sample(200, random_state=rng)
+        w = {"none": None, "array": 0.5 + rng.random(200)}.get(case["weights"], case["weights"])
+        fx = {"f_delta": 2.0} if case["fixed"] == "delta" else {}
+        perm = rng.permutation(200)
+        try:
+            a = E(**fx); a.fit(x, method="wlsq", weights=w)
+            b = E(**fx); b.fit(x[perm], method="wlsq", weights=(w[perm] if isinstance(w, np.ndarray) else w))
+        except Exception as e:
+            return {"confirmed": True, "detail": f"raised {type(e).__name__}: {e}"}
+        pa, pb = np.array(list(a.parameters.values())), np.array(list(b.parameters.values()))
+        bad = not np.allclose(pa, pb, rtol=1e-6)
+        return {"confirmed": bool(bad), "detail": f"fit to data {pa.tolist()} vs fit to the same (data, weight) pairs in another order {pb.tolist()}"}
